@@ -153,7 +153,7 @@ def check(ctx):
                         ctx.violation('R10-hash-covers-text', fi, st, 'this part of the cache module is not covered by the cookie: two declarations that differ only here share a cookie and the stale module is reused', line, clause='H')
                     # (D)
                     if isinstance(op, ast.JoinedStr) and any(isinstance(v, ast.FormattedValue) and is_digest(model, v.value) for v in op.values):
-                        lit = ''.join(v.value for v in op.values if isinstance(v, ast.Constant))
+                        lit = ''.join(str(v.value) if isinstance(v, ast.Constant) else str(v.value.value) if isinstance(v.value, ast.Constant) and v.conversion == -1 and v.format_spec is None else '' for v in op.values)
                         name = lit.split('=')[0].strip()
                         if once('R10-cookie-line', name):
                             if cookie_attr and name not in cookie_attr:
